@@ -55,7 +55,7 @@ class BaseElementLocator
     {
         element_addresses_.reserve(new_max_element_count, allocator);
         std::copy(locator.element_addresses_.begin(), locator.element_addresses_.end(), element_addresses_.begin());
-        element_addresses_.resize_from_capacity(old_max_element_count);
+        element_addresses_.resize_from_capacity(locator.element_addresses_.size());
     }
 
     template <class Allocator>
